@@ -93,6 +93,16 @@ claim("C20", "model_checking",
       "TLA+ contract spec (Wrap.tla, character-level scanner) evaluated by TLC over outputs of the real "
       "wrap_line; inputs are TLC-generated behaviours of WrapGen.tla")
 
+claim("C08", "model_checking",
+      "every statement the real CodeBuilder produces for the ProgGen behaviours over a typed catalogue "
+      "(subscripts on both sides, loop nests with variable bounds, guards, keyword arguments, conditional "
+      "and short-circuit expressions) is executed by the real interpreter on an instrumented store in "
+      "several stores; TLC evaluates the static access semantics of Access.tla on the exported expression "
+      "trees and checks declared sets against static and observed accesses and identity-mapping stability",
+      "trusted: the recording store (dict subclass), the expression exporter; AssignImplicit not executed",
+      "TLA+ static-semantics spec (Access.tla over Expr.tla) evaluated by TLC against declared sets and "
+      "accesses recorded from the real interpreter; statements come from TLC-generated ProgGen behaviours")
+
 NOT_YET = "check not built yet (work in progress, see DESIGN.md section 11)"
 NOT_APPLICABLE = {}
 
